@@ -228,12 +228,33 @@ theorem fitsE_congr (m m' : Mesh) (s s' : Region) (hr : m'.region = m.region) (h
   simp only [FitsE, Mesh.ndim, Mesh.nAt, Mesh.cellAt, Region.lo, Region.hi, Region.edge] at h ⊢
   rw [hr, hn, h1, h2]; exact h
 
+/-- what the setter tests for a candidate of the mesh's dimension: the copy that is going to be stored -/
+theorem candOk_eq (m : Mesh) (s : Region) (h : s.pmin.length = m.ndim) : candOk m s = subOk m (stampFor m.region s) := by
+  unfold candOk
+  have : s.ndim = m.ndim := h
+  rw [if_pos this]
+
+/-- a candidate of another dimension is refused -/
+theorem candOk_ndim (m : Mesh) (s : Region) (h : candOk m s = true) : s.pmin.length = m.ndim := by
+  by_contra hn
+  unfold candOk at h
+  have : ¬ s.ndim = m.ndim := hn
+  rw [if_neg this] at h
+  unfold subOk Region.containsReg Region.containsPt at h
+  simp only [Bool.and_eq_true, decide_eq_true_eq] at h
+  exact hn h.1.1.1
+
+/-- an exactly fitting candidate passes, whatever names, units and tolerance factor it carries -/
+theorem candOk_of_fits (m : Mesh) (hm : m.Inv) (s : Region) (h : FitsE m s) : candOk m s = true := by
+  rw [candOk_eq m s h.1]
+  exact subOk_of_fits m hm _ (fitsE_congr m m s _ rfl rfl rfl rfl h)
+
 /-- the re-creation of an accepted candidate with the mesh's metadata -/
 def restamp (r : Region) (p : String × Region) : String × Region :=
   (p.1, { pmin := p.2.pmin, pmax := p.2.pmax, dims := r.dims, units := r.units, tol := r.tol })
 
 theorem setSubs_ok_eq (m m' : Mesh) (subs : List (String × Region)) (h : setSubs m subs = .ok m') :
-    m' = { m with subs := subs.map (restamp m.region) } ∧ ∀ p ∈ subs, subOk m p.2 = true := by
+    m' = { m with subs := subs.map (restamp m.region) } ∧ ∀ p ∈ subs, candOk m p.2 = true := by
   unfold setSubs at h
   split at h
   · rename_i hall
@@ -248,8 +269,8 @@ theorem setSubs_of_fits (m : Mesh) (hm : m.Inv) (subs : List (String × Region))
     SubInv { m with subs := subs.map (restamp m.region) } := by
   constructor
   · unfold setSubs
-    have : subs.all (fun p => subOk m p.2) = true := by
-      rw [List.all_eq_true]; intro p hp; exact subOk_of_fits m hm p.2 (h p hp)
+    have : subs.all (fun p => candOk m p.2) = true := by
+      rw [List.all_eq_true]; intro p hp; exact candOk_of_fits m hm p.2 (h p hp)
     rw [if_pos this]; rfl
   · intro q hq
     obtain ⟨p, hp, rfl⟩ := List.mem_map.mp hq
